@@ -1,7 +1,7 @@
 """C15 — typed JSON round-trip of Serializable objects.
 
 Correspondence units (coq/Extract/U_Json.v): json_tojson, json_fromjson, json_loads_dumps, json_rt,
-json_intstr, json_domain against the real Serializable.toJson / fromJson / dumps / loads, the real
+json_intstr, json_domain, json_plain against the real Serializable.toJson / fromJson / dumps / loads, the real
 `json` module and the real int()/str().  Classes are generated dynamically (Serializable /
 SerializableEnum subclasses built with type()), the class table is passed to the model as data.
 Oracle: the round-trip property on the implementation alone (no model involved).
@@ -335,7 +335,7 @@ def gen_int(rng, big=True):
         return rng.choice(INTS)
     if c < 0.9:
         return rng.randrange(-10 ** 6, 10 ** 6)
-    if c < 0.985 or not big:
+    if c < 0.993 or not big:
         return rng.choice([1, -1]) * rng.randrange(10 ** rng.randrange(1, 60))
     return rng.choice([BIG - 1, -(BIG - 1), BIG // 10])         # the 4300-digit boundary, inside
 
@@ -539,6 +539,27 @@ def strictly_plain(j):
     return False
 
 
+def plain_py(j, lim):
+    """JSON data with str or int dict keys (what toJson may hand to json.dumps); lim: ints within the 4300-digit limit"""
+    def int_ok(z):
+        if not lim:
+            return True
+        try:
+            str(z)
+            return True
+        except ValueError:
+            return False
+    if j is None or type(j) in (bool, float, str):
+        return True
+    if type(j) is int:
+        return int_ok(j)
+    if type(j) is list:
+        return all(plain_py(x, lim) for x in j)
+    if type(j) is dict:
+        return all((type(k) is str or (type(k) is int and int_ok(k))) and plain_py(v, lim) for k, v in j.items())
+    return False
+
+
 def describe(x):
     try:
         return lib.jsonable(enc_pv(x))
@@ -556,6 +577,8 @@ def oracle_one(run, ci, x, fam):
     except Exception as e:   # noqa
         run.oracle_violation("toJson-raises", dict(case, error=repr(e)[:200]), site)
         return
+    if not plain_py(j, False):
+        run.oracle_violation("toJson-output-not-plain", case, site)
     try:
         y = ci.cls.fromJson(j)
         if not deep_eq(x, y):
@@ -635,9 +658,12 @@ def run(run):
     compare_filtered(run, "json_tojson", dom_cases, impl, mod, False, descs_of(dom_objs))
     recs = []
     for fam, ci, x in dom_objs:
-        j = x.toJson()
-        recs.append((fam, ci, j))
-        recs.append((fam, ci, json.loads(json.dumps(j))))
+        try:
+            j = x.toJson()
+            recs.append((fam, ci, j))
+            recs.append((fam, ci, json.loads(json.dumps(j))))
+        except Exception:   # noqa  not ignored: the json_tojson comparison above has already failed on this
+            run.count("in_domain_tojson_or_dumps_raised")   # object and the oracle below reports it as a concrete replay
     fcases = [[fam.wire(), FUEL, ci.cid, enc_pv(j)] for fam, ci, j in recs]
     impl = [guard(lambda: ci.cls.fromJson(j)) for fam, ci, j in recs]
     mod = M.call_many("json_fromjson", fcases)
@@ -736,18 +762,36 @@ def run(run):
            {"1": "a", 1: "b", True: "c"}, {None: 1, "null": 2}, {True: 1, False: 2, "true": 3}, (1, (2, [3])), {(1, 2): 3},
            {b"k": 1}, [set()], b"x", {"a": {"b": {1: {2: [(), {}]}}}}, float("nan"), [float("inf"), -0.0], {1: set(), (1,): 2},
            {1: 10 ** 4300, 2: set()}, b2f(0xfff0000000000001), b2f(0x7ff0000000000001)]
-    jcases, jimpl = [], []
+    jcases, jimpl, jvals = [], [], []
     for v in jc:
         try:
             w = enc_pv(v)
         except Unenc:
             continue
         jcases.append([w])
+        jvals.append(v)
         jimpl.append(guard(lambda: json.loads(json.dumps(v))))
     mod = M.call_many("json_rt", jcases)
     compare_filtered(run, "json_rt", jcases, jimpl, mod, True, [lib.jsonable(c[0]) for c in jcases])
     for c, r in zip(jcases, jimpl):
         run.count("json_rt_err_%d" % r[1] if r[0] == 1 else "json_rt_ok")
+
+    # ---------------- the predicates plainb / strictb against their Python restatement
+    pvals = [j for fam, ci, j in recs]
+    for fam, ci, x in mobjs:
+        try:
+            j = x.toJson()
+            enc_pv(j)
+            pvals.append(j)
+        except Exception:   # noqa  toJson raised / unencodable: no value to classify
+            pass
+    pvals += jvals
+    pcases = [[enc_pv(j)] for j in pvals]
+    pimpl = [[int(plain_py(j, False)), int(plain_py(j, True)), int(strictly_plain(j))] for j in pvals]
+    mod = M.call_many("json_plain", pcases)
+    run.compare("json_plain", pcases, pimpl, mod, describe=lambda c: lib.jsonable(c[0]))
+    for r in pimpl:
+        run.count("plain_%d%d%d" % tuple(r))
 
     # ---------------- int <-> str
     icases = []
@@ -760,9 +804,15 @@ def run(run):
     ss += ["".join(rng.choice(alpha) for _ in range(rng.randrange(0, 7))) for _ in range(3000 * scale)]
     ss += [rng.choice(["", " ", "\n", "+", "-"]) + str(rng.randrange(10 ** rng.randrange(1, 30))) + rng.choice(["", " ", "\t", "_", "_1"])
            for _ in range(500 * scale)]
-    n = max(len(zs), len(ss))
+    # the 4300-digit boundary values are expensive in the extracted model (unary-decimal conversions):
+    # each of them is used once, paired with a cheap partner; the cheap values are cycled
+    zs_big, zs_small = [z for z in zs if abs(z) >= 10 ** 700], [z for z in zs if abs(z) < 10 ** 700]
+    ss_big, ss_small = [t for t in ss if len(t) >= 700], [t for t in ss if len(t) < 700]
+    n = max(len(zs_small), len(ss_small))
     for i in range(n):
-        icases.append((zs[i % len(zs)], ss[i % len(ss)]))
+        icases.append((zs_small[i % len(zs_small)], ss_small[i % len(ss_small)]))
+    icases += [(z, ss_small[i % len(ss_small)]) for i, z in enumerate(zs_big)]
+    icases += [(zs_small[i % len(zs_small)], t) for i, t in enumerate(ss_big)]
 
     def impl_intstr(z, s):
         try:
